@@ -210,6 +210,58 @@ def check_mixed_orderings(ctx, prog, tag, rule="C08.N8.mixed-ordering-casts-the-
         ctx.floor(floor_name + " float casts in mixed orderings" + tag, n8, 2)
 
 
+def check_exactness_of_integer_floats(ctx, prog, tag, prefix="C08.N7"):
+    """N7 (also C07.V9): which integers have an exact float form is decided by the cast round trip, guarded against the
+    saturating float-to-int cast - the test that makes `==` (coercible pair) agree with the exact ordering fallback"""
+    # ---- N7: which integers have an exact float form is decided by the cast round trip, guarded against the
+    # saturating float-to-int cast.  In as_f64, per integer representation: every path to `None` passes the
+    # round-trip test (`x as f64 as T == x`) or its saturation bound (`rv < T::MAX as f64`), and every round-trip
+    # test is dominated by that bound.  A narrower test (a magnitude limit) calls exactly representable integers
+    # inexact, so `==` (not coercible -> unequal) and `cmp` (exact fallback) disagree; a missing bound makes
+    # `T::MAX` equal to the next power of two.
+    af = prog.fn(OPS + "as_f64")
+    VREPR_ = "minijinja::value::ValueRepr"
+    swa = arms.enum_switches(prog, af, VREPR_)
+    ctx.need(swa, prefix + ": as_f64 has no switch on ValueRepr")
+    aregs = arms.arm_regions(prog, af, swa[0][0], VREPR_)
+    aent = arms.variant_targets(prog, af, swa[0][0], VREPR_)
+    for v in ("U64", "I64", "U128", "I128"):
+        reg = aregs.get(v, set())
+        rts, bounds = set(), set()
+        for bb in sorted(reg):
+            if af.term(bb)["k"] != "switch":
+                continue
+            cd = flow.cond_of(af, bb)
+            if cd.kind != "bin":
+                continue
+            if cd.rv["op"] in ("Eq", "Ne") and cd.rv.get("ty") in ("u64", "i64", "u128", "i128"):
+                def _is_f2i(op_):
+                    p_ = op_place(op_)
+                    if p_ is None or "p" in p_:
+                        return False
+                    return any(d.kind == "stmt" and d.rv["k"] == "cast" and d.rv["kind"] == "FloatToInt"
+                               for d in flow.whole_defs(af, p_["l"]))
+                if _is_f2i(cd.rv["a"]) or _is_f2i(cd.rv["b"]):
+                    rts.add(bb)
+            if cd.rv["op"] in ("Lt", "Le", "Gt", "Ge") and cd.rv.get("ty") == "f64":
+                for x in ("a", "b"):
+                    for o in flow.origins(af, cd.rv[x]):
+                        if o.kind == "const" and str(o.const.get("named", "")).endswith("::MAX"):
+                            bounds.add(bb)
+        nones = {bb for bb, i, st in af.all_stmts() if bb in reg and st["k"] == "assign" and st["place"] == {"l": 0}
+                 and st["rv"]["k"] == "agg" and st["rv"].get("variant") == "None"}
+        ent = aent.get(v)
+        ok_a = bool(rts) and ent is not None and (not nones or cfg.paths_must_pass(af, ent, rts | bounds, nones))
+        ctx.ob(prefix + ".exactness-is-decided-by-the-round-trip", "%sas_f64|%s" % (tag, v), ok_a,
+               "for %s integers as_f64 can return None without the cast round trip `x as f64 as T == x` having "
+               "failed (round-trip tests found: %d): integers that do have an exact float form are called "
+               "inexact, so `==` / `in` (not coercible -> unequal) disagree with the ordering" % (v, len(rts)), af.loc)
+        ok_b = all(any(cfg.dominates(af, b_, r_) for b_ in bounds) for r_ in rts)
+        ctx.ob(prefix + ".round-trip-is-guarded-against-saturation", "%sas_f64|%s" % (tag, v), ok_b,
+               "the round trip for %s is not dominated by `rv < T::MAX as f64`: the float-to-int cast saturates, so "
+               "T::MAX (not representable) passes the round trip and compares equal to the next power of two" % v, af.loc)
+
+
 def run(ctx):
     ctx.explain("C08: frozen operator table checked against the MIR of value/ops.rs (integer arm -> i128::checked_* "
                 "with None -> Err; float arms of // and % both euclidean), a lossy-cast lint with the round-trip "
@@ -273,53 +325,7 @@ def run(ctx):
             ctx.ob("C08.N1.float-arm-operator", "%s%s" % (tag, op), sorted(got) == list(fw),
                    "float arm of `%s` computes with %s, expected %s (`//` and `%%` must both be euclidean so that "
                    "(a // b) * b + a %% b == a)" % (op, sorted(got), list(fw)), f.loc)
-        # ---- N7: which integers have an exact float form is decided by the cast round trip, guarded against the
-        # saturating float-to-int cast.  In as_f64, per integer representation: every path to `None` passes the
-        # round-trip test (`x as f64 as T == x`) or its saturation bound (`rv < T::MAX as f64`), and every round-trip
-        # test is dominated by that bound.  A narrower test (a magnitude limit) calls exactly representable integers
-        # inexact, so `==` (not coercible -> unequal) and `cmp` (exact fallback) disagree; a missing bound makes
-        # `T::MAX` equal to the next power of two.
-        af = prog.fn(OPS + "as_f64")
-        VREPR_ = "minijinja::value::ValueRepr"
-        swa = arms.enum_switches(prog, af, VREPR_)
-        ctx.need(swa, "C08.N7: as_f64 has no switch on ValueRepr")
-        aregs = arms.arm_regions(prog, af, swa[0][0], VREPR_)
-        aent = arms.variant_targets(prog, af, swa[0][0], VREPR_)
-        for v in ("U64", "I64", "U128", "I128"):
-            reg = aregs.get(v, set())
-            rts, bounds = set(), set()
-            for bb in sorted(reg):
-                if af.term(bb)["k"] != "switch":
-                    continue
-                cd = flow.cond_of(af, bb)
-                if cd.kind != "bin":
-                    continue
-                if cd.rv["op"] in ("Eq", "Ne") and cd.rv.get("ty") in ("u64", "i64", "u128", "i128"):
-                    def _is_f2i(op_):
-                        p_ = op_place(op_)
-                        if p_ is None or "p" in p_:
-                            return False
-                        return any(d.kind == "stmt" and d.rv["k"] == "cast" and d.rv["kind"] == "FloatToInt"
-                                   for d in flow.whole_defs(af, p_["l"]))
-                    if _is_f2i(cd.rv["a"]) or _is_f2i(cd.rv["b"]):
-                        rts.add(bb)
-                if cd.rv["op"] in ("Lt", "Le", "Gt", "Ge") and cd.rv.get("ty") == "f64":
-                    for x in ("a", "b"):
-                        for o in flow.origins(af, cd.rv[x]):
-                            if o.kind == "const" and str(o.const.get("named", "")).endswith("::MAX"):
-                                bounds.add(bb)
-            nones = {bb for bb, i, st in af.all_stmts() if bb in reg and st["k"] == "assign" and st["place"] == {"l": 0}
-                     and st["rv"]["k"] == "agg" and st["rv"].get("variant") == "None"}
-            ent = aent.get(v)
-            ok_a = bool(rts) and ent is not None and (not nones or cfg.paths_must_pass(af, ent, rts | bounds, nones))
-            ctx.ob("C08.N7.exactness-is-decided-by-the-round-trip", "%sas_f64|%s" % (tag, v), ok_a,
-                   "for %s integers as_f64 can return None without the cast round trip `x as f64 as T == x` having "
-                   "failed (round-trip tests found: %d): integers that do have an exact float form are called "
-                   "inexact, so `==` / `in` (not coercible -> unequal) disagree with the ordering" % (v, len(rts)), af.loc)
-            ok_b = all(any(cfg.dominates(af, b_, r_) for b_ in bounds) for r_ in rts)
-            ctx.ob("C08.N7.round-trip-is-guarded-against-saturation", "%sas_f64|%s" % (tag, v), ok_b,
-                   "the round trip for %s is not dominated by `rv < T::MAX as f64`: the float-to-int cast saturates, so "
-                   "T::MAX (not representable) passes the round trip and compares equal to the next power of two" % v, af.loc)
+        check_exactness_of_integer_floats(ctx, prog, tag)
         # N7b: the same saturation bound for every float -> int -> float exactness test (integer conversions of values)
         rt = float_roundtrip_sites(prog, [g for g in prog.fns.values() if g.crate == "minijinja"])
         for g, rb, guarded in rt:
